@@ -394,7 +394,7 @@ def opHEV (a : List String) : M String :=
     (match unhexArg hexs, mkVerifier vspec with
      | some (some data), some v =>
        (match verifyHashEnvelope v data with
-        | (.ok m, _) => some ("ver=ok " ++ m.dump)
+        | (.ok m, calls) => some ("ver=ok " ++ m.dump ++ " vtbs=" ++ hexList calls)
         | (.err _, _) => some "ver=err"
         | (.panic, _) => some "panic"
         | (.unmodelled, _) => none)
